@@ -188,3 +188,58 @@ func VHRestore() {
 	vAssert(vVisitsEq(dr2.visitedNodes, c.visits) && dr2.currentNode == c.node, "runners restored from one snapshot do not influence one another")
 	vAssert(vStoreEq(dr2.variableStorer.GetValues(), c.vars), "the other runner's variables are untouched")
 }
+
+// VHRestoreHostBuilt (C06, C07): snapshots a host builds itself (the only way to start a dialogue at a chosen
+// node) rather than obtains from Snapshot(): maps left nil, empty, or filled. Restoring one never panics, gives
+// the state it describes, and the runner then runs (jumps included) without panicking.
+func VHRestoreHostBuilt() {
+	w := vNewWorld(0, false)
+	dr := w.dr
+	w.nodes[1].Statements[0] = &tree.Statement{JumpStatement: &tree.JumpStatement{Expression: vValExpr(variable.NewString("n2"))}}
+	s := &Snapshot{CurrentNode: []string{"n0", "n1", "zz"}[vChoose("snap.node", 3)]}
+	maps := vChoose("snap.maps", 4)
+	if maps == 1 || maps == 3 {
+		s.Variables = map[string]variable.Value{}
+		if maps == 3 {
+			s.Variables["b0"] = *variable.NewBoolean(vBool("snap.b0"))
+		}
+	}
+	if maps == 2 || maps == 3 {
+		s.VisitedNodes = map[string]int{}
+		if maps == 3 {
+			s.VisitedNodes["n2"] = 1 + vChoose("snap.n2", 2)
+		}
+	}
+	c := vDeepCopySnapshot(s)
+	var err error
+	panicked := vTry(func() { err = dr.RestoreAt(s) })
+	vAssert(!panicked, "restoring a host-built snapshot never panics")
+	vAssert((err != nil) == (s.CurrentNode == "zz"), "restoring fails exactly when the snapshot names an unknown node")
+	if err != nil {
+		return
+	}
+	vAssert(vStoreEq(w.store.GetValues(), c.vars), "after a restore the variables are the snapshot's (none for a nil map)")
+	var s2 *Snapshot
+	panicked = vTry(func() { s2 = dr.Snapshot() })
+	vAssert(!panicked && s2 != nil && s2.CurrentNode == c.node && vStoreEq(s2.Variables, c.vars) && vVisitsEq(s2.VisitedNodes, c.visits), "a snapshot taken right after equals the restored one (nil maps reading as empty)")
+	for i := 0; i < 3; i++ {
+		var el *DialogueElement
+		panicked = vTry(func() { el, err = dr.Next(vInt("choice" + vItoa(i))) })
+		vAssert(!panicked, "the restored runner runs without panicking")
+		if i == 0 {
+			vAssert(err == nil && el != nil, "the step after a restore succeeds")
+			if c.node == "n1" {
+				vAssert(el.Node == "n2", "the restored runner runs the node's jump")
+				cnt, _ := vScriptVisits(dr, "n1")
+				ci, _ := vExactInt(cnt)
+				want := 0
+				if w.tracked("n1") {
+					want = 1
+				}
+				vAssert(ci == want, "and counts it")
+				vReach("jump-after-host-built-restore")
+			}
+		}
+	}
+	vReach("host-built")
+}
